@@ -70,6 +70,7 @@ def build_reference(tree, root2, pat, builder, nested, count, on):
         for c in ast.iter_child_nodes(n):
             par[id(c)] = n
     selected = set()      # ids of `tree` nodes to replace
+    par_ranges = []
     order = []            # in pfst walk (syntactic) order
     chosen_b = []
     for f in root2.walk(True):
@@ -99,6 +100,11 @@ def build_reference(tree, root2, pat, builder, nested, count, on):
                 return None
         chosen_b.append(b)
         selected.add(id(twin[id(b)]))
+        try:
+            pr = f.pars()   # the matched node's own grouping parentheses belong to it (C06 validates pars())
+            par_ranges.append((pr.ln + 1, pr.end_ln + 1))
+        except Exception:
+            pass
     n_repl = [0]
     ranges = []
 
@@ -123,13 +129,17 @@ def build_reference(tree, root2, pat, builder, nested, count, on):
                 setattr(new, f, [R(x, True, inside_match) if isinstance(x, ast.AST) else x for x in v])
         return new
     new = R(tree)
-    return new, n_repl[0], ranges
+    return new, n_repl[0], ranges + par_ranges
 
 
 def run_window(ctx, FST, M, src, label, rnd):
     from ..base import insync, short, refparse
     base, _ = refparse(src)
     if base is None:
+        return
+    from .c11 import has_debug_fstring
+    if has_debug_fstring(base):
+        ctx.count('program_with_debug_fstring_skipped(AST edit of {x=} is ill-defined)')
         return
     RCP = recipes(M)
     rnd.shuffle(RCP)
@@ -186,13 +196,14 @@ def run_window(ctx, FST, M, src, label, rnd):
             ctx.violation(f'sub-result-desync:{detail}:{name}', f'{name} ({settings}): result source and tree out of sync ({detail}); src={short(root.src, 240)!r}', case)
             continue
         got, _ = refparse(root.src)
-        if got is None or ast.dump(got) != ast.dump(want):
+        from .c07 import Sn
+        if got is None or Sn(got) != Sn(want):
             ctx.violation(f'sub-result-differs-from-reference:{name}', f'{name} ({settings}) on {short(src, 200)!r}: result {short(root.src, 240)!r} != reference {short(ast.unparse(want), 240)!r}', case)
             continue
         if uniq != nref or total != nref:
             ctx.violation(f'subn-count-differs:{name}', f'{name} ({settings}): subn reports unique={uniq} total={total}, reference made {nref} replacements', case)
             continue
-        if name.startswith('identity') and ast.dump(got) != ast.dump(base):
+        if name.startswith('identity') and Sn(got) != Sn(base):
             ctx.violation('identity-template-changes-structure', f'{name}: structure changed', case)
         # text outside the substituted nodes
         lines = src.split('\n')
